@@ -63,3 +63,60 @@ pub fn decode_text(data: &[u8]) -> String {
         },
     }
 }
+
+fn pb(s: &str) -> Option<bool> {
+    match s {
+        "1" => Some(true),
+        "0" => Some(false),
+        _ => None,
+    }
+}
+
+fn plist(s: &str) -> Option<Vec<u32>> {
+    if s == "-" { Some(Vec::new()) } else { s.split(',').map(|x| x.parse().ok()).collect() }
+}
+
+/// Inverse of `msg_text` (numbers must fit the Rust field types).
+pub fn parse_msg(ws: &[&str]) -> Option<MultiplexMsg> {
+    use std::time::Duration;
+    Some(match ws {
+        ["reset"] => MultiplexMsg::Reset,
+        ["ping"] => MultiplexMsg::Ping,
+        ["clientFinish"] => MultiplexMsg::ClientFinish,
+        ["listenerFinish"] => MultiplexMsg::ListenerFinish,
+        ["goodbye"] => MultiplexMsg::Goodbye,
+        ["hello", v, t, c, b, q] => {
+            let t: u64 = t.parse().ok()?;
+            MultiplexMsg::Hello {
+                version: v.parse().ok()?,
+                cfg: ExchangedCfg {
+                    connection_timeout: if t == 0 { None } else { Some(Duration::from_millis(t)) },
+                    chunk_size: c.parse().ok()?,
+                    port_receive_buffer: b.parse().ok()?,
+                    connect_queue: q.parse().ok()?,
+                },
+            }
+        }
+        ["openPort", p, w, i] => MultiplexMsg::OpenPort {
+            client_port: p.parse().ok()?,
+            wait: pb(w)?,
+            id: if *i == "-" { None } else { Some(i.parse().ok()?) },
+        },
+        ["portOpened", c, s] => MultiplexMsg::PortOpened { client_port: c.parse().ok()?, server_port: s.parse().ok()? },
+        ["rejected", c, n] => MultiplexMsg::Rejected { client_port: c.parse().ok()?, no_ports: pb(n)? },
+        ["data", p, f, l] => MultiplexMsg::Data { port: p.parse().ok()?, first: pb(f)?, last: pb(l)? },
+        ["portData", p, f, l, w, ps, is] => MultiplexMsg::PortData {
+            port: p.parse().ok()?,
+            first: pb(f)?,
+            last: pb(l)?,
+            wait: pb(w)?,
+            ports: plist(ps)?,
+            ids: if *is == "none" { None } else { Some(plist(is)?) },
+        },
+        ["portCredits", p, c] => MultiplexMsg::PortCredits { port: p.parse().ok()?, credits: c.parse().ok()? },
+        ["sendFinish", p] => MultiplexMsg::SendFinish { port: p.parse().ok()? },
+        ["receiveClose", p] => MultiplexMsg::ReceiveClose { port: p.parse().ok()? },
+        ["receiveFinish", p] => MultiplexMsg::ReceiveFinish { port: p.parse().ok()? },
+        _ => return None,
+    })
+}
